@@ -60,7 +60,7 @@ func addFallback(m *minify.M) { m.AddFuncRegexp(fallbackRe, streamStub) }
 var c12Entries = []int{EPlain, EBytes, EString, EReader, EWriter, ERespWriter, EMiddleware, EMiddleErr, EMatch}
 
 var mtExt = map[string]string{"text/html": ".html", "text/css": ".css", "application/javascript": ".js",
-	"application/json": ".json", "image/svg+xml": ".svg", "text/xml": ".xml", MTStream: ".strm", MTFail: ".fail", MTEarly: ".early"}
+	"application/json": ".json", "image/svg+xml": ".svg", "text/xml": ".xml", MTStream: ".strm", MTFail: ".fail", MTEarly: ".early", MTWrap: ".wrap"}
 
 // errText never panics: a broken tree may hand back an error interface that wraps a nil
 // pointer.
@@ -109,7 +109,7 @@ func c12Case(env *Env, tape *sim.Tape) *CaseOut {
 	useBytes := tape.Draw(2) == 1
 	eofWithData := tape.Draw(2) == 1
 	stick := []int{0, 1, 9}[tape.Draw(3)]
-	mtVariant := tape.Draw(2)
+	mtVariant := tape.Draw(8) // 0,2,4,6: bare type; 1,3,5: with a parameter; 7: a type nobody registered
 	emptyChunks := tape.Draw(4) == 3
 
 	data := doc.Data
@@ -139,8 +139,14 @@ func c12Case(env *Env, tape *sim.Tape) *CaseOut {
 	}
 
 	callMT := doc.MT
-	if mtVariant == 1 {
+	if mtVariant%2 == 1 && mtVariant != 7 {
 		callMT += "; charset=utf-8"
+	}
+	if mtVariant == 7 {
+		// no minifier: every entry point must report the registry's not-exist error and
+		// deliver nothing, also when not a single byte is written before Close
+		callMT = "text/x-nobody-registered-this; v=1"
+		out.stat("probe_unregistered_media_type", 1)
 	}
 	op := &Op{Entry: entry, MT: callMT, In: data, UseBytes: useBytes}
 	op.W = sim.NewSimWriter(nil)
@@ -194,6 +200,15 @@ func c12Case(env *Env, tape *sim.Tape) *CaseOut {
 		}
 		if ctMode == 4 || ctMode == 5 {
 			op.RequestURI = "/misleading" + mtExt[other]
+		}
+		if (mask>>13)%4 == 3 {
+			// extensions are not case-sensitive (INDEX.HTML is an HTML file)
+			if i := strings.IndexByte(op.RequestURI, '?'); i >= 0 {
+				op.RequestURI = strings.ToUpper(op.RequestURI[:i]) + op.RequestURI[i:]
+			} else {
+				op.RequestURI = strings.ToUpper(op.RequestURI)
+			}
+			out.stat("probe_upper_case_path_extension", 1)
 		}
 		if clMode == 1 {
 			op.ContentLength = fmt.Sprint(n)
@@ -334,6 +349,16 @@ func c12Case(env *Env, tape *sim.Tape) *CaseOut {
 
 	// error channel of each entry point
 	gotErr := op.Err
+	if entry == EMatch && op.MatchNil {
+		// "the match query answers exactly what a call would use": no function = not-exist
+		gotErr = minify.ErrNotExist
+	}
+	if isHTTP && len(data) == 0 && !ref.Nil {
+		// a handler that writes no body never reaches a minifier (there is no Write call to
+		// start one): nothing to compare with the plain call on an empty document
+		out.stat("http_responses_without_body_not_compared", 1)
+		return out
+	}
 	switch entry {
 	case EWriter, ERespWriter:
 		gotErr = op.CloseErr
@@ -354,9 +379,10 @@ func c12Case(env *Env, tape *sim.Tape) *CaseOut {
 		if (gotErr == nil) != (ref.Err == nil) || (gotErr != nil && errText(gotErr) != errText(ref.Err)) {
 			return fail("error-differs", fmt.Sprintf("entry reported %q, plain call reports %q", errText(gotErr), errText(ref.Err)))
 		}
-		if ref.Err == nil || entry == EWriter || isHTTP {
-			// on success the bytes must be identical; through the writers even a failing
-			// minifier's output is "all output": what the plain call wrote before failing
+		if ref.Err == nil || entry == EWriter || entry == EReader || isHTTP {
+			// on success the bytes must be identical; through the writers and the reader wrapper
+			// even a failing minifier's output is "all output": what the plain call wrote before
+			// failing (the consumer of the reader wrapper reads it, then gets the error)
 			if !(ref.Err != nil && (entry == EBytes || entry == EString)) && !bytes.Equal(op.Out, ref.Out) {
 				return fail("output-differs", fmt.Sprintf("%d bytes %q, plain call gives %d bytes %q", len(op.Out), corpus.Short(op.Out, 60), len(ref.Out), corpus.Short(ref.Out, 60)))
 			}
